@@ -187,7 +187,6 @@ func runScenario(cs *exCase, w *world, u progen.Universe, code0 []byte, debug bo
 				ev.Req = m
 			}
 		}
-		rec.Events = append(rec.Events, ev)
 		var b aspBehaviour
 		if firing < len(cs.Aspects) {
 			b = cs.Aspects[firing]
@@ -197,16 +196,25 @@ func runScenario(cs *exCase, w *world, u progen.Universe, code0 []byte, debug bo
 		if b.Burn <= uint64(gas) {
 			left = gas - int64(b.Burn)
 		}
+		var rret []byte
+		var rerr error
 		switch b.Kind {
 		case 0:
-			return common.FromHex(b.Ret), left, nil
+			rret = common.FromHex(b.Ret)
 		case 1:
-			return nil, 0, errors.New("out of gas")
+			left, rerr = 0, errors.New("out of gas")
 		case 2:
-			return nil, left, errors.New("execution reverted")
+			rerr = errors.New("execution reverted")
 		default:
-			return nil, left, errors.New("aspect failed")
+			rerr = errors.New("aspect failed")
 		}
+		// what this firing answers (for the harness-side oracles)
+		ev.ResGas = uint64(left)
+		if rerr != nil {
+			ev.HasErr, ev.Err = true, rerr.Error()
+		}
+		rec.Events = append(rec.Events, ev)
+		return rret, left, rerr
 	}
 	// per-step observations that need the live EVM
 	evmv := reflect.ValueOf(env.EVM).Elem()
@@ -755,6 +763,10 @@ func genExecCase(rr *rng.R, u progen.Universe, forks []string) (exCase, *world, 
 	w := &world{Code: map[common.Address][]byte{}, Storage: map[common.Address]map[common.Hash]common.Hash{},
 		Balance: map[common.Address]*big.Int{}, Nonce: map[common.Address]uint64{}}
 	opts := progen.Opts{Fork: fi, MaxSnips: 10, Cancun: fork == "Cancun", Journal: true, SmallMem: true}
+	// focused families: journal-heavy programs (attribution after refused creates / failed calls), reverting callees under failing Aspects
+	focus := rr.Intn(4)
+	opts.JournalHeavy = focus == 1
+	opts.RevertBias = focus == 2
 	for k, a := range u.Contracts {
 		code := progen.Program(rr, u, opts)
 		if k > 0 && rr.Intn(8) == 0 {
@@ -782,6 +794,15 @@ func genExecCase(rr *rng.R, u progen.Universe, forks []string) (exCase, *world, 
 		cs.Codes["init"] = fmt.Sprintf("%x", code0)
 	}
 	cs.Bindings, cs.Aspects = genBindings(rr, u)
+	if focus == 2 {
+		// Aspects fail often, in every way, with gas left
+		for i := range cs.Aspects {
+			cs.Aspects[i].Kind = rr.Intn(4)
+			if rr.Bool() {
+				cs.Aspects[i].Burn = uint64(rr.Intn(2000))
+			}
+		}
+	}
 
 	return cs, w, code0
 }
